@@ -304,7 +304,7 @@ fn run_entry(c: &Case, base: &Path) -> Result<Out> {
 // case generation
 
 fn gen_pairs(rng: &mut Rng, n: usize, m: usize, npp: usize) -> Vec<T3> {
-    let style = rng.below(7);
+    let style = rng.below(8);
     let mut v: Vec<T3> = Vec::with_capacity(m);
     if n == 0 { return v; }
     let hot = rng.below(n);
@@ -315,6 +315,10 @@ fn gen_pairs(rng: &mut Rng, n: usize, m: usize, npp: usize) -> Vec<T3> {
             1 => if rng.chance(4, 5) { hot } else { rng.below(n) },                    // one hot source
             2 => { let lo = (hot / npp.max(1)) * npp.max(1); (lo + rng.below(npp.max(1))).min(n - 1) } // one partition only
             3 => rng.below(n.min(3)),                                                  // low sources
+            7 => {                                                                     // hugging a partition boundary
+                let b = rng.below(n / npp.max(1) + 2) * npp.max(1);
+                (b + rng.below(3)).saturating_sub(1).min(n - 1)
+            }
             _ => n - 1 - rng.below(n.min(2)),                                          // last sources
         };
         let d = rng.below(dmax);
@@ -357,7 +361,14 @@ fn split_blocks(rng: &mut Rng, v: Vec<T3>, k: usize) -> Vec<Vec<T3>> {
 fn gen_case(rng: &mut Rng, maxn: usize, idx: usize) -> Case {
     let entry = ENTRIES[if rng.chance(1, 8) { idx % ENTRIES.len() } else { rng.below(ENTRIES.len()) }];
     let labeled = entry.contains("labeled");
-    let n = match rng.below(10) { 0 => rng.below(3), 1 => rng.range(1, 4), _ => rng.range(1, maxn.max(1)) };
+    let graph_entry = entry == "g_sort_graph" || entry == "g_par_sort_graph";
+    let n = match rng.below(12) {
+        0 => rng.below(3),
+        1 => rng.range(1, 4),
+        // large node counts (not for the entry points that build a graph in memory)
+        2 if !graph_entry => [1usize << 20, 1_000_000_000_007, (1usize << 40) + 1, 97][rng.below(4)] + rng.below(5),
+        _ => rng.range(1, maxn.max(1)),
+    };
     let p = match rng.below(6) { 0 => 1, 1 => rng.range(1, 32), 2 => n + rng.range(1, 3), _ => rng.range(1, 8) }.min(32).max(1);
     let threads = match rng.below(5) { 0 => 1, 1 => rng.range(1, 16), _ => rng.range(1, 4) };
     let md = rng.chance(1, 2);
